@@ -14,13 +14,14 @@ import sys
 
 sys.path.insert(0, os.path.dirname(os.path.dirname(os.path.dirname(os.path.abspath(__file__)))))
 import common  # noqa: E402
+from props.parts import sendflow  # noqa: E402
 
 PREAMBLE = "From H2V Require Import Base.Tac Base.Bytes Model.Wake.\nLocal Open Scope N_scope.\n"
 
 POLL_KIND = {"poll_response": 0, "poll_pushed_response": 0, "poll_data": 1, "poll_trailers": 2, "poll_capacity": 3,
              "poll_reset": 4, "respond_poll_reset": 4, "poll_push": 5, "poll_informational": 6}
 TRANSPORT_OPS = {"peer", "eof", "read_fail", "write_mode", "write_chunk", "read_chunk", "sleep", "handshake"}
-RKIND = {1: "RHeaders", 2: "RInfo", 3: "RTrailers", 4: "RData", 5: "RPromised", 6: "RPollData", 7: "RAfterReset"}
+RKIND = {1: "RHeaders", 2: "RInfo", 3: "RTrailers", 4: "RData", 5: "RPromised", 6: "RPollData", 7: "RAfterReset", 8: "RDataUnobserved"}
 WORK = {1: "WFrameQueued", 2: "WOpenQueued", 3: "WConnWindowOwed", 4: "WStreamWindowOwed", 5: "WTargetChanged",
         6: "WLastHandleDropped", 7: "WStreamRefDropped", 8: "WReservationLowered", 9: "WOnlyConnRefLeft"}
 REGISTER = {"stream.wait_send": "SlSend", "stream.wait_open": "SlOpen", "stream.wait_recv": "SlRecv", "stream.wait_push": "SlPush"}
@@ -95,6 +96,10 @@ def project(trace):
                 labels.append(["LSite (StRecvEvent %d %s %s)" % (args[0], RKIND.get(args[2], "RAfterReset"), b(args[3])), []])
                 site = (len(labels) - 1, args[0])
                 count("site:StRecvEvent:" + RKIND.get(args[2], "?"))
+            elif nm == "recv.end_unobserved":
+                labels.append(["LSite (StRecvEvent %d RDataUnobserved %s)" % (args[0], b(args[2])), []])
+                site = (len(labels) - 1, args[0])
+                count("site:StRecvEvent:RDataUnobserved")
             elif nm in PRIMITIVE:
                 if site is None or site[1] != args[0]:
                     problems.append({"step": st["i"], "why": "primitive notification outside a modelled site", "event": e})
@@ -317,3 +322,96 @@ if __name__ == "__main__":
         report_disagreements(rep, scs, failing)
     for p, _ in rep.violations[:3]:
         print(open(p).read()[:2500])
+
+
+# ----------------------------------------------------------------------------------------------
+# search-only oracle on plain driver traces (hook-independent): ready without a wake-up
+
+_KIND = {"poll_response": 0, "poll_pushed_response": 0, "poll_data": 1, "poll_trailers": 2, "poll_capacity": 3,
+         "poll_reset": 4, "respond_poll_reset": 4, "poll_push": 5, "poll_informational": 6}
+_SLOT = {0: (0, 1, 2, 6), 1: (0, 1, 2, 6), 2: (0, 1, 2, 6), 6: (0, 1, 2, 6), 3: (3, 4), 4: (3, 4), 5: (5,)}
+
+
+def _waker_of(op):
+    o = op.get("op")
+    if o == "poll_ready":
+        return 2 + 1000 * int(op.get("sr", 0))
+    if o == "poll_pong":
+        return 3
+    if o in _KIND and op.get("h") is not None:
+        return 100 + 8 * int(op["h"]) + _KIND[o]
+    return None
+
+
+def ready_without_wake(sc):
+    """A poll returned Pending and parked its (named) waker; the same poll is made again later and is Ready although that
+    waker never fired in between: the event that made it ready did not wake the task (a task polled only when woken - every
+    real executor - would hang).  Same conventions as the ending oracle of C07: h2 keeps ONE waker per stream and direction,
+    so a later registration in the same slot replaces the earlier one; a task that acts on its own send half is not parked."""
+    parked = {}
+    for st in sc["trace"]:
+        op, res = st["op"], st.get("res")
+        o = op.get("op")
+        for wid in st.get("wakes") or []:
+            parked.pop(wid, None)
+        if isinstance(res, dict) and "panic" in res:
+            return None
+        if o in ("send_data", "send_trailers", "send_reset", "respond_reset", "send_response", "reserve", "send_pushed_response") and op.get("h") is not None:
+            parked.pop(100 + 8 * int(op["h"]) + 3, None)
+            parked.pop(100 + 8 * int(op["h"]) + 4, None)
+        if o and o.startswith("drop_") and op.get("h") is not None:
+            for k in range(8):
+                parked.pop(100 + 8 * int(op["h"]) + k, None)
+        if o in ("drop_sr", "clone_sr", "send_request"):
+            parked.pop(2 + 1000 * int(op.get("sr", 0)), None)
+        if o in ("drop_ping_pong", "send_ping", "take_ping_pong"):
+            parked.pop(3, None)
+        if o in ("drop_conn", "conn_drop"):
+            return None                  # tearing the connection object down is judged by C07's ending oracle
+        wid = _waker_of(op)
+        if wid is None:
+            continue
+        was = parked.get(wid)
+        if wid >= 100:
+            base, k = 100 + 8 * ((wid - 100) // 8), (wid - 100) % 8
+            for k2 in _SLOT.get(k, (k,)):
+                if base + k2 != wid:
+                    parked.pop(base + k2, None)
+        if res == "Pending":
+            parked[wid] = (st["i"], op)
+        else:
+            parked.pop(wid, None)
+            if was is not None and was[1] == op:
+                return {"step": st["i"], "why": "a poll that had parked its waker is Ready now although the waker never fired in between "
+                                                "(the event that completed it did not wake the task)", "op": op, "parked_at": was[0],
+                        "result": str(res)[:120]}
+    return None
+
+
+def oracle_ready_without_wake(rep, tier, seed, profiles=("mixed", "flow", "bp", "recv", "reset", "pushlimit", "queue", "shutdown"), name="ready-without-wake"):
+    """plain driver scripts (named wakers of the deterministic driver): a parked poll that is later Ready was woken in between;
+    the committed regression replays run first"""
+    import glob
+    per = 40 if tier == "quick" else 1200
+    scs = []
+    for path in sorted(glob.glob(os.path.join(common.VERIF, "corpus", "conn", "c06_*.json"))):
+        rc, out = common.run_harness("conn", ["--replay", path], timeout=120)
+        got, _ = sendflow.load_scenarios(out)
+        scs.extend(got)
+    for pi, prof in enumerate(profiles):
+        got, _ = sendflow.gen_scenarios(seed * 8191 + 29 * pi + 7, per, 130, prof, snap=False)
+        scs.extend(got)
+    n_viol = 0
+    polls = 0
+    for sc in scs:
+        polls += sum(1 for st in sc["trace"] if st.get("res") == "Pending" and _waker_of(st["op"]) is not None)
+        v = ready_without_wake(sc)
+        if v:
+            n_viol += 1
+            if n_viol <= 3:
+                rep.violation("failing-input", {"oracle": "deterministic driver, named wakers: a poll that parked its waker became Ready without that waker firing (lost wake-up)",
+                                                "violation": v, "scenario": {"cfg": sc["cfg"], "seed": sc.get("seed"), "i": sc.get("i"), "profile": sc.get("profile"),
+                                                                             "trace": [{"op": st["op"]} for st in sc["trace"]]}})
+    rep.oracle_runs.append({"name": name, "cases": len(scs), "nontrivial": sum(1 for sc in scs if any(st.get("res") == "Pending" for st in sc["trace"])),
+                            "failures": n_viol, "parked_polls": polls})
+    return n_viol
